@@ -266,8 +266,14 @@ impl Prop for C19 {
                             "xml" => {
                                 match xmlcheck::parse(stdout.trim_end_matches('\n')) {
                                     Err(e) => {
-                                        let class = if e.contains("XML name") || e.contains("start tag") || e.contains("end tag") || e.contains("attribute") || e.contains("is never closed") {
+                                        let class = if xmlcheck::has_key_that_is_no_name(&expected) {
+                                            // a server-supplied map key that is not an XML Name became an element name;
+                                            // where the parser trips over it depends on the key's characters
                                             "element-name"
+                                        } else if e.contains("XML name") || e.contains("start tag") || e.contains("end tag") || e.contains("attribute") || e.contains("is never closed") {
+                                            "element-name"
+                                        } else if e.contains("U+FFFE") || e.contains("U+FFFF") || e.contains("U+0000") {
+                                            "unrepresentable-character"
                                         } else if e.contains("illegal literal character") || e.contains("character reference") {
                                             "illegal-character"
                                         } else {
